@@ -156,6 +156,18 @@ Section Acc.
   Definition receiver_run (tr : list event) : option rstate := run receiver_acc rinit tr.
 End Acc.
 
+(* ---- what "a sender that follows the documented protocol" means for the packets the
+   receiver reads: no STAT after the empty STAT, and nothing at all after its FIN (it sends
+   FIN only as the last packet, then closes) ---- *)
+Definition no_stat_after_end (tr : list event) : Prop :=
+  forall pre o post, tr = pre ++ Inp (PStat o) :: post -> ~ List.In (Inp (PStat None)) pre.
+Definition nothing_after_fin (tr : list event) : Prop :=
+  forall pre p post, tr = pre ++ Inp p :: post -> ~ List.In (Inp PFin) pre.
+Definition legal_sender (tr : list event) : Prop := no_stat_after_end tr /\ nothing_after_fin tr.
+
+(* the STATs received, in order *)
+Definition rstats (tr : list event) : list stat := some_stats (stats_in tr).
+
 Definition receiver_accepts (needs : bytes -> bool) (tr : list event) : option bool :=
   match receiver_run needs tr with
   | Some s => r_ret s
